@@ -200,7 +200,7 @@ func pbfRoleSeparation(r *core.R, m *pbfModel, skipDone bool) {
 			if pos >= g.rootPos {
 				return false
 			}
-			if g.inLoop != nil && g.inLoop.Pos() <= pos && pos <= g.inLoop.End() {
+			if g.loopStmt != nil && g.loopStmt.Pos() <= pos && pos <= g.loopStmt.End() {
 				return false
 			}
 		}
